@@ -4,6 +4,7 @@ from framework import Obligation, Claim, Cover, model_value
 from values import *
 from interp import run_to_end
 from props.common import *
+from props.actor_steps import StepPull, StepExpire
 
 OUTSIDE = ['tokio timer accuracy (<= 1 ms) and the actor loop re-arming poll_next_expired (A3)']
 ASSUMPTIONS = ['EPOCH (lazy static) is not later than any instant passed to AckDeadline::new']
@@ -101,4 +102,4 @@ class C04d(Obligation):
 
 def obligations(ctx, cfg):
     n = 3 if cfg['tier'] == 'quick' else 5
-    return [C04a(ctx), C04d(ctx, n)]
+    return [C04a(ctx), C04d(ctx, n), StepPull(ctx, 2, 3, 0, 'deadline', 'C04.b'), StepExpire(ctx, n, 2, 0, 'deadline', 'C04.e')]
